@@ -2,10 +2,10 @@
    calls of a history (with what the RLP/signature layer and revm's validation answered) and,
    per call, what the implementation returned: rejected / ok with k receipts, and after the
    call the height, the next height, the number of transactions in the open block and the
-   pending pool as (account, nonce) pairs. *)
+   pending pool as (account, nonce, parked-in block) triples. *)
 From Brc.Model Require Import Base Table Engine.
 
-Record eprobe := { ep_out : outcome; ep_next : N; ep_wait : N; ep_pool : list (N * N) }.
+Record eprobe := { ep_out : outcome; ep_next : N; ep_wait : N; ep_pool : list (N * N * N) (* account, nonce, block it was (last) parked in *) }.
 Record ecase := { ec_id : N; ec_calls : list (call * eprobe) }.
 
 Definition outcome_eqb (a b : outcome) : bool :=
@@ -16,9 +16,9 @@ Definition outcome_eqb (a b : outcome) : bool :=
   | _, _ => false
   end.
 
-Definition pool_keys (g : eng) : list (N * N) := map fst (g_pool g).
-Definition pair_mem (p : N * N) (l : list (N * N)) : bool := existsb (pair_eqb N.eqb N.eqb p) l.
-Definition same_set (a b : list (N * N)) : bool :=
+Definition pool_keys (g : eng) : list (N * N * N) := g_pool g.
+Definition pair_mem (p : N * N * N) (l : list (N * N * N)) : bool := existsb (pair_eqb (pair_eqb N.eqb N.eqb) N.eqb p) l.
+Definition same_set (a b : list (N * N * N)) : bool :=
   Nat.eqb (length a) (length b) && forallb (fun p => pair_mem p b) a && forallb (fun p => pair_mem p a) b.
 
 Fixpoint e_check (W FN FB IDX : N) (g : eng) (cs : list (call * eprobe)) : bool :=
